@@ -226,19 +226,27 @@ def random_corpus(rnd):
     return out
 
 
-async def setup(hidden_expunge=False, msgs=None):
+async def setup(hidden_expunge=False, msgs=None, backend='dict'):
     MSGS = msgs if msgs is not None else globals()['MSGS']
-    w = await World().start()
-    c = await w.client('c')
+    if backend == 'dict':
+        w = await World().start()
+        c = await w.client('c')
+    else:
+        from .imapdrv import MaildirWorld
+        w = await MaildirWorld(layout='++').start()
+        c = await w.client('c', user=b'alice', pw=b'apass')
     await c.cmd(b'CREATE Box')
     raws = []
+    uids = []
     for m in MSGS:
         raw = build(m)
         raws.append(raw)
         fl = b' '.join(m['flags'])
-        await c.cmd(b'APPEND Box (' + fl + b') "' + m['idate'].encode() + b'" {%d}' % len(raw), [raw + b'\r\n'])
+        r = await c.cmd(b'APPEND Box (' + fl + b') "' + m['idate'].encode() + b'" {%d}' % len(raw), [raw + b'\r\n'])
+        mu = re.search(rb'APPENDUID \d+ (\d+)', r['tagged'])
+        uids.append(int(mu.group(1)) if mu else None)
     await c.cmd(b'SELECT Box')
-    view = [Rec(i + 1, 101 + i, m, raws[i], True) for i, m in enumerate(MSGS)]
+    view = [Rec(i + 1, uids[i], m, raws[i], True) for i, m in enumerate(MSGS)]
     if hidden_expunge:
         # another session expunges message 3 (already \Deleted); the searching session only issues non-UID commands,
         # so the expunge stays hidden and message 3 stays in its view
@@ -248,16 +256,16 @@ async def setup(hidden_expunge=False, msgs=None):
     return w, c, view
 
 
-async def run_batch(programs, hidden, msgs=None):
+async def run_batch(programs, hidden, msgs=None, backend='dict'):
     errors = []
-    w, c, view = await setup(hidden, msgs)
+    w, c, view = await setup(hidden, msgs, backend)
     sigs = []
     for prog in programs:
         text = ' '.join(wire(k) for k in prog)
         want = [r.seq for r in view if all(ev(k, r, view) for k in prog)]
         r = await c.cmd(b'SEARCH ' + text.encode())
         got = parse_search(r)
-        where = f'SEARCH {text}' + (' [hidden expunge]' if hidden else '')
+        where = f'SEARCH {text}' + (' [hidden expunge]' if hidden else '') + (f' [{backend} backend]' if backend != 'dict' else '')
         if not r['answered'] or got is None:
             errors.append((prog, f'{where}: answered {r["tagged"]!r}'))
             continue
@@ -282,8 +290,11 @@ async def run_batch(programs, hidden, msgs=None):
 def _worker(args):
     progs, hidden = args[0], args[1]
     msgs = args[2] if len(args) > 2 else None
+    backend = args[3] if len(args) > 3 else 'dict'
     try:
-        errs, sigs = run(run_batch(progs, hidden, msgs))
+        errs, sigs = run(run_batch(progs, hidden, msgs, backend))
+        if backend != 'dict':
+            sigs = [(s[0] + ' @' + backend, s[1]) for s in sigs]
         if msgs is not None:
             errs = [(p, e + f'  [mailbox: {[(m["flags"], m["idate"], m["sent"], m["frm"], m["subject"]) for m in msgs]}]')
                     for p, e in errs]
@@ -366,6 +377,9 @@ def bounded_search(label):
             corpus = random_corpus(rnd)
             sample = leaves[:] + rnd.sample(progs, 120 if tier == 'quick' else 400)
             chunks += [(sample[i:i + 80], False, corpus) for i in range(0, len(sample), 80)]
+        # the maildir backend loads only as much of a message as the keys of the program declare they need: every leaf key
+        # and its negation alone (so that nothing else in the program asks for more), on the fixed corpus
+        chunks += [(leaves[i:i + 60], False, None, 'maildir') for i in range(0, len(leaves), 60)]
         with mp.get_context('fork').Pool(16) as pool:
             for errs, sigs in pool.imap_unordered(_worker, chunks):
                 res.evaluations += len(sigs)
